@@ -4,11 +4,20 @@ Engine E1 (exhaustive input enumeration), NumPy backend:
   reclassify   every strictly ascending bin list drawn from {0..B} x every value of {-1,-0.5,..,B+1,NaN,+-inf}
                (1-cell rasters and whole-alphabet rasters) x float64/float32/int32, plus the documented
                "last bin = inf" form; oracle = linear scan for the first bin >= value;
-  binary       every subset of a 5-value alphabet x every cell letter incl. NaN/+-inf, float and int rasters;
+               plus (kinds edge_*) every ascending list over an alphabet of edges that are NOT float32-representable
+               (0.1, 0.2, 0.1+0.2, 2.3, 1e-3, 2^24+1, ..) x the cells sitting ON and immediately on either side of
+               each edge IN THE RASTER'S OWN DTYPE (float32: float32(e) and its two float32 neighbours; float64: e and
+               its two float64 neighbours plus the float32 triple; int32: floor/ceil), compared exactly;
+  binary       every subset of a 5-value alphabet x every cell letter incl. NaN/+-inf, float and int rasters; the same
+               for a 5-value alphabet of values that are not float32-representable x their dtype neighbours;
   quantile / equal_interval / natural_breaks
                every raster of N cells (1xN and 2x(N/2)) over small alphabets (integers + NaN/inf, values
                that are not float32-representable, signed values + -inf, 7 distinct integers) x k, against exact-rational /
-               brute-force reference models (xrmc/oracles/classify.py)."""
+               brute-force reference models (xrmc/oracles/classify.py);
+  equal_interval additionally on a DENSE (min, max, k) grid: every integer pair lo <= min < max <= hi x every k x
+               float64/float32/int32, as the 2-cell raster [min, max] and as a raster holding min, max, their inner
+               neighbours, every integer in between, every interval midpoint and every cut with its two neighbours
+               (whether arange overshoots / the last cut falls short of max depends on (min, max, k) only)."""
 import itertools
 
 import numpy as np
@@ -26,11 +35,17 @@ NAN, INF = float("nan"), float("inf")
 RULE = ("reclassify: rank -> (dtype, strictly ascending bin list = non-empty subset of {0..B}, cell value | "
         "layout of the whole value alphabet); binary: rank -> (dtype, subset of the 5 listed values, 1-cell raster "
         "per letter | whole-alphabet raster); data-driven classifiers: rank -> (shape, mixed-radix number of the "
-        "cell letters, k).  A case is non-trivial when its raster holds >= 2 distinct finite values (reclassify / "
+        "cell letters, k); equal_interval min/max grid: rank -> (integer pair min < max, k, 2-cell | full raster).  "
+        "A case is non-trivial when its raster holds >= 2 distinct finite values (reclassify / "
         "binary: when the output has a non-NaN cell); distinct = distinct (input, parameters, output) digests")
 ASSUMPTIONS = [
     "NumPy backend only (Dask is covered by C01); CuPy not available",
     "binary: inf / NaN are never listed in `values` (outside the documented domain)",
+    "binary on a float32 raster with a listed value x that is not float32-representable: the cell float32(x) is "
+    "not numerically x, but it is what a float32 raster holds where x was meant - the statement does not settle "
+    "it, so that one cell is a tie (its float32 neighbours must be 0; float64 rasters are compared exactly)",
+    "reclassify / binary compare the cell exactly as stored in the raster dtype with the edge / value exactly as "
+    "given (float64 or int): float32(0.1) > 0.1 belongs to the NEXT bin",
     "reclassify: bin lists are strictly ascending; non-strict (duplicate) ascending lists are explored but only "
     "reported informationally (counter nonstrict_*); with a final bin of +inf the +-inf cells are not asserted "
     "(the statement says NaN, the docstring example shows the last class)",
@@ -68,6 +83,33 @@ BIN_VALUES = (0, 1, 2.5, -3, 255)                        # the 5-value alphabet 
 BIN_CELLS_F = BIN_VALUES + (0.5, 3, NAN, INF, -INF)
 BIN_VALUES_I = (0, 1, 2, -3, 255)
 BIN_CELLS_I = BIN_VALUES_I + (3, 7)
+# edges / listed values that are NOT float32-representable (float32(e) is above e for 0.1, 0.2, 0.1+0.2, 1.1 and
+# below it for 1e-3, 0.7, 2.3, 2^24+1), simplest first
+EDGES = {"quick": (0.1, 0.2, 0.1 + 0.2, 2.3, 1e-3, 16777217, 0.7, 1.1),
+         "thorough": (0.1, 0.2, 0.1 + 0.2, 2.3, 1e-3, 16777217, 0.7, 1.1, 3e-3, 0.3, 2.3000000001)}
+BIN_VALUES_NF = (0.1, 0.2, 2.3, 1e-3, 16777217)
+EI_GRID = {"quick": dict(lo=-3, hi=18, ks=tuple(range(2, 9))), "thorough": dict(lo=-5, hi=24, ks=tuple(range(2, 13)))}
+
+
+def neighbours(x, dt):
+    """x rounded to dtype `dt` ('f4' / 'f8') and the two adjacent numbers of that dtype, as exact Python floats."""
+    t = np.dtype(dt).type
+    c = t(x)
+    return [float(np.nextafter(c, t(-np.inf))), float(c), float(np.nextafter(c, t(np.inf)))]
+
+
+def edge_cells(edges, dt):
+    """Cells on either side of every edge in the raster's own dtype (sorted, distinct)."""
+    out = {0.0}
+    for e in edges:
+        if dt.startswith("i"):
+            f = int(np.floor(e))
+            out.update((f, f + 1) if f != e else (f - 1, f, f + 1))
+        else:
+            out.update(neighbours(e, dt))
+            if dt == "f8":
+                out.update(neighbours(e, "f4"))          # a float64 raster holding former float32 data
+    return tuple(sorted(out))
 
 
 def shapes_upto(n, two_row_max=99):
@@ -82,9 +124,20 @@ def shapes_upto(n, two_row_max=99):
 BOUNDS = {t: {
     "reclassify": {"bins": "all non-empty strictly ascending lists over {0..%d}" % BIN_TOP[t],
                    "values": "-1..%d step 0.5, NaN, +inf, -inf (int32: integers only)" % (BIN_TOP[t] + 1),
-                   "dtypes": ["float64", "float32", "int32"]},
+                   "dtypes": ["float64", "float32", "int32"],
+                   "edge_bins": "all non-empty ascending lists over %r" % (EDGES[t],),
+                   "edge_cells": "per edge e: float32 rasters float32(e) and its 2 float32 neighbours; float64 rasters "
+                                 "e and its 2 float64 neighbours + the float32 triple; int32 floor(e), ceil(e) "
+                                 "(e-1, e, e+1 for an integer e); plus 0"},
     "binary": {"values": "all 32 subsets of %r (ints: %r)" % (BIN_VALUES, BIN_VALUES_I),
-               "cells": [str(x) for x in BIN_CELLS_F], "dtypes": ["float64", "float32", "int32", "int64"]},
+               "cells": [str(x) for x in BIN_CELLS_F], "dtypes": ["float64", "float32", "int32", "int64"],
+               "nf32_values": "all 32 subsets of %r" % (BIN_VALUES_NF,),
+               "nf32_cells": "the edge_cells of these values per dtype + NaN, +-inf (float rasters)"},
+    "equal_interval_minmax_grid": {
+        "min_max": "every integer pair %d <= min < max <= %d" % (EI_GRID[t]["lo"], EI_GRID[t]["hi"]),
+        "k": list(EI_GRID[t]["ks"]), "dtypes": ["float64", "float32", "int32"],
+        "rasters": "[min, max] and {min, max, next above min, next below max, every integer between, every interval "
+                   "midpoint, every cut and its two dtype neighbours} (int32: every integer of [min, max])"},
     "classifiers": {"k": list(KS[t]),
                     "grids": [dict(alphabet=[str(x) for x in al], dtype=dt, max_cells=(q if t == "quick" else th),
                                    layouts="1xN and 2x(N/2)" + (" (N <= %d)" % TWO_ROW_MAX[nm] if nm in TWO_ROW_MAX else ""))
@@ -119,18 +172,25 @@ def reclass_values(top, dtype):
 
 class ReclassifySpace(Space):
     """kind: 'cell' (1x1 raster per value), 'raster' (whole value alphabet in 3 layouts),
-    'infbin' (bins + [inf], whole alphabet), 'nonstrict' (duplicate bins; informational)."""
+    'infbin' (bins + [inf], whole alphabet), 'nonstrict' (duplicate bins; informational),
+    'edge_cell' / 'edge_raster' (= 'cell' / 'raster' over the non-float32-representable edges and their
+    dtype neighbours)."""
     DTYPES = ("f8", "f4", "i4")
 
     def __init__(self, tier, kind):
         self.kind, self.top = kind, BIN_TOP[tier]
         self.name = "reclassify_" + kind
         self.lists = bin_lists(self.top)
+        self.values = {dt: reclass_values(self.top, dt) for dt in self.DTYPES}
+        if kind.startswith("edge_"):
+            edges = EDGES[tier]
+            self.lists = [tuple(sorted(c)) for n in range(1, len(edges) + 1) for c in itertools.combinations(edges, n)]
+            self.values = {dt: edge_cells(edges, dt) for dt in self.DTYPES}
+            self.kind = kind = kind[5:]
         if kind == "nonstrict":
             m = min(self.top, 4)
             self.lists = [c for n in range(2, 6) for c in itertools.combinations_with_replacement(range(m + 1), n)
                           if len(set(c)) < len(c)]
-        self.values = {dt: reclass_values(self.top, dt) for dt in self.DTYPES}
         per = {dt: (len(self.values[dt]) if kind == "cell" else 3) for dt in self.DTYPES}
         self.parts = SumSpace([(dt, len(self.lists) * per[dt]) for dt in self.DTYPES])
         self.per = per
@@ -211,17 +271,26 @@ class ReclassifySpace(Space):
 # binary
 # ---------------------------------------------------------------------------------------------------
 class BinarySpace(Space):
+    """variant 'std': the 5-value alphabets above; 'nf32': listed values that are not float32-representable x the
+    cells on either side of each of them in the raster's own dtype."""
     DTYPES = ("f8", "f4", "i4", "i8")
-    name = "binary"
 
-    def __init__(self):
+    def __init__(self, variant="std"):
+        self.variant = variant
+        self.name = "binary" if variant == "std" else "binary_" + variant
         self.subsets = [c for n in range(6) for c in itertools.combinations(range(5), n)]
         self.nlay = {dt: len(self.cells(dt)) + 2 for dt in self.DTYPES}
         self.parts = SumSpace([(dt, len(self.subsets) * self.nlay[dt]) for dt in self.DTYPES])
         self.size = self.parts.size
 
-    @staticmethod
-    def cells(dt):
+    def alphabet(self, dt):
+        if self.variant == "nf32":
+            return BIN_VALUES_NF
+        return BIN_VALUES_I if dt.startswith("i") else BIN_VALUES
+
+    def cells(self, dt):
+        if self.variant == "nf32":
+            return edge_cells(BIN_VALUES_NF, dt) + (() if dt.startswith("i") else (NAN, INF, -INF))
         return BIN_CELLS_I if dt.startswith("i") else BIN_CELLS_F
 
     def setup(self):
@@ -232,7 +301,7 @@ class BinarySpace(Space):
         p, local = self.parts.locate(rank)
         dt = self.DTYPES[p]
         si, lay = divmod(local, self.nlay[dt])
-        alpha = BIN_VALUES_I if dt.startswith("i") else BIN_VALUES
+        alpha = self.alphabet(dt)
         values = [alpha[i] for i in self.subsets[si]]
         cells = self.cells(dt)
         if lay < len(cells):
@@ -267,8 +336,10 @@ class BinarySpace(Space):
             else:
                 n = 0
                 for v, lab in zip(a.ravel().tolist(), o.ravel().tolist()):
-                    exp = ref.binary_ref(v, values)
-                    if (exp is None and lab != lab) or (exp is not None and lab == exp):
+                    exp = ref.binary_ref(v, values, f32_raster=(dt == "f4"))
+                    if exp == ref.TIE:
+                        out.tie()
+                    elif (exp is None and lab != lab) or (exp is not None and lab == exp):
                         n += 1
                     elif bad is None:
                         bad = "cell %r -> %r, expected %r (1 exactly on the listed values, 0 on other finite " \
@@ -277,7 +348,7 @@ class BinarySpace(Space):
             if bad:
                 out.count("viol.binary.value")
                 out.violation(rank, "binary.value" + key, bad, case=self.describe(rank), observed=o,
-                              expected=[ref.binary_ref(v, values) for v in a.ravel().tolist()])
+                              expected=[ref.binary_ref(v, values, dt == "f4") for v in a.ravel().tolist()])
             elif out.want_sample() and a.size > 1 and len(values) >= 2:
                 out.sample({"raster": a, "values": values, "out": o})
 
@@ -419,9 +490,47 @@ class ClassifierSpace(Space):
                                 for v in cells])
 
 
+class EqualIntervalGridSpace(ClassifierSpace):
+    """equal_interval on a dense (min, max, k) grid: rank -> (integer pair min < max, k, layout).
+    layout 0: the 1x2 raster [min, max]; layout 1: a 2-row raster holding min, max, the dtype neighbours just inside
+    them, every integer in between, the midpoint of every interval and every cut with its two dtype neighbours
+    (int32: every integer of [min, max]).  All of ClassifierSpace's assertions apply (every finite cell a class of
+    [0, k-1], order, interval index away from the cuts; on / next to a cut: tie)."""
+
+    def __init__(self, tier, dtype):
+        g = EI_GRID[tier]
+        self.fn_name, self.alpha_name, self.dtype, self.ks = "equal_interval", "minmax", dtype, g["ks"]
+        self.name = "equal_interval_minmax_%s_%d..%d" % (dtype, g["lo"], g["hi"])
+        self.pairs = [(a, b) for b in range(g["lo"] + 1, g["hi"] + 1) for a in range(b - 1, g["lo"] - 1, -1)]
+        self.size = len(self.pairs) * len(self.ks) * 2
+        self.weight = 1.5
+        self.rel_eps = 1e-6 if dtype == "f4" else 1e-9
+
+    def case(self, rank):
+        from fractions import Fraction
+        r, lay = divmod(rank, 2)
+        pi, ki = divmod(r, len(self.ks))
+        (mn, mx), k, dt = self.pairs[pi], self.ks[ki], self.dtype
+        if lay == 0:
+            return np.array([[mn, mx]], dtype=dt), k
+        cells = set(range(mn, mx + 1))
+        if not dt.startswith("i"):
+            cells.update((neighbours(mn, dt)[2], neighbours(mx, dt)[0]))
+            cuts = [Fraction(mn) + Fraction(i * (mx - mn), k) for i in range(k + 1)]
+            for c0, c1 in zip(cuts, cuts[1:]):
+                cells.add(neighbours(float((c0 + c1) / 2), dt)[1])
+            for c in cuts[1:-1]:
+                cells.update(neighbours(float(c), dt))
+        cells = sorted(cells, reverse=True)
+        cells += [mn] * (len(cells) % 2)
+        return np.array(cells, dtype=dt).reshape(2, -1), k
+
+
 def build(tier):
-    spaces = [ReclassifySpace(tier, kind) for kind in ("cell", "raster", "infbin", "nonstrict")]
-    spaces.append(BinarySpace())
+    spaces = [ReclassifySpace(tier, kind) for kind in ("cell", "raster", "infbin", "nonstrict",
+                                                       "edge_cell", "edge_raster")]
+    spaces += [BinarySpace(), BinarySpace("nf32")]
+    spaces += [EqualIntervalGridSpace(tier, dt) for dt in ("f8", "f4", "i4")]
     for fn in ("quantile", "equal_interval", "natural_breaks"):
         for name, letters, dt, q, th in GRIDS:
             spaces.append(ClassifierSpace(fn, name, letters, dt, q if tier == "quick" else th, KS[tier]))
